@@ -22,7 +22,7 @@ func init() {
 		Assumptions: []string{"reference = refts/packet.go written from ISO 13818-1 2.4.3.2-2.4.3.5 and anchored by hand-assembled header bytes in the self check",
 			"the struct's write contract is the one documented on its fields (Length ignored, StuffingLength requested, IsOneByteStuffing for the 1 byte form, TransportPrivateDataLength = len)",
 			"IsOneByteStuffing is not part of the TS format and is ignored when comparing parsed packets",
-			"adaptation extension without reserved trailing bytes (the struct cannot represent them)"},
+			"reserved bytes closing the adaptation extension are all ones (ISO 13818-1: reserved bits are 1) and counted by ReservedLength; splice_countdown is two's complement"},
 		Shards: 32,
 		Run:    runC11,
 		Guards: func(m *mon.Merged, tier string) []string {
